@@ -8,7 +8,8 @@ request  {"t0":T,"budget":N,"progs":[[y,…],…],"tasks":[k,…],"timers":[[del
           "r":[T|null,…],"w":[…],"x":[…],"send":[n|null,…],"recv":[n|null,…],"fix_send":bool,"fix_empty_sub":bool}
   y ::= ["num",n] | ["block"] | ["sleep",d|null] | ["sleepabs",w] | ["select",r|null,w|null,x|null,to|null]
       | ["recv",fd,to|null] | ["send",fd,len,to|null,bs] | ["exit"] | ["raise",n] | ["again",k,catch] | ["cancel",j]
-response {"trace":[["s",tid,idx,time,recv,wake] | ["f",tid,n,time] …],"quit","crashed","cycles","now","ready","incoming","hub"}
+  + "prios":[p,…] (task priorities in 1/8; missing = 8), "draws":[d,…] (scripted Scheduler._random results in 1/8)
+response {"trace":[["s",tid,idx,time,recv,wake,raw] | ["f",tid,n,time] …],"quit","crashed","cycles","now","ready","incoming","hub"}
   (step events of timer tasks are not reported: the real `Timer` generator is not instrumented) -/
 
 def optNatJ : J → Except String (Option Nat)
@@ -54,12 +55,15 @@ def excName : Exc → String
   | .nameError => "NameError"
   | .typeError => "TypeError"
 
+def valOut : Val → J
+  | .none => .null
+  | .sel r w x => .arr [.str "sel", J.ofNats r, J.ofNats w, J.ofNats x]
+  | .num n => .arr [.str "num", .num n]
+  | .fals => .arr [.str "false"]
+  | .data n => .arr [.str "data", .num n]
+
 def recvOut : Recv → J
-  | .val .none => .null
-  | .val (.sel r w x) => .arr [.str "sel", J.ofNats r, J.ofNats w, J.ofNats x]
-  | .val (.num n) => .arr [.str "num", .num n]
-  | .val .fals => .arr [.str "false"]
-  | .val (.data n) => .arr [.str "data", .num n]
+  | .val v => valOut v
   | .exc e => .arr [.str "exc", .str (excName e)]
 
 def wakeOut : Option (Nat × Bool) → J
@@ -72,7 +76,8 @@ def isTimer (s : St) (t : Nat) : Bool :=
   | _ => false
 
 def evOut (s : St) : Ev → Option J
-  | .step t i tm r w => if isTimer s t then none else some (.arr [.str "s", .num t, .num i, .num tm, recvOut r, wakeOut w])
+  | .step t i tm r raw w =>
+    if isTimer s t then none else some (.arr [.str "s", .num t, .num i, .num tm, recvOut r, wakeOut w, valOut raw])
   | .fire t n tm => some (.arr [.str "f", .num t, .num n, .num tm])
 
 def handle (j : J) : Except String J := do
@@ -84,7 +89,7 @@ def handle (j : J) : Except String J := do
   let tab (k : String) : Except String (List (Option Nat)) := do (← j.array k).mapM optNatJ
   let cfg : Cfg := { progs := progs, env := { rAt := ← tab "r", wAt := ← tab "w", xAt := ← tab "x" },
                      fixSend := ← j.boolean "fix_send", fixEmptySub := ← j.boolean "fix_empty_sub" }
-  let s := run cfg budget (initSt t0 tasks timers (← tab "send") (← tab "recv"))
+  let s := run cfg budget (initSt t0 tasks timers (← tab "send") (← tab "recv") (← j.nats "prios") (← j.nats "draws"))
   pure (J.mk [("trace", .arr (s.trace.filterMap (evOut s))), ("quit", .bool s.hasQuit), ("crashed", .bool s.crashed),
               ("cycles", .num s.cycles), ("now", .num s.now), ("ready", J.ofNats s.ready),
               ("incoming", J.ofNats (s.incoming.map (·.tid))), ("hub", J.ofNats (s.hub.map (·.tid)))])
